@@ -44,6 +44,9 @@ enum Kind {
     Some,
     OArc,
     OSome,
+    /// opaque handles assembled by "another module": same layout, that module's own clone / drop functions
+    FArc,
+    FSome,
 }
 
 enum H<A: 'static> {
@@ -51,6 +54,27 @@ enum H<A: 'static> {
     Some(CArcSome<P<A>>),
     OArc(CArc<c_void>),
     OSome(CArcSome<c_void>),
+    FArc(CArc<c_void>),
+    FSome(CArcSome<c_void>),
+}
+
+thread_local! {
+    static F_CLONES: std::cell::Cell<u64> = const { std::cell::Cell::new(0) };
+    static F_DROPS: std::cell::Cell<u64> = const { std::cell::Cell::new(0) };
+}
+/// the other module's clone function: same effect as the library's, another address, counted
+unsafe extern "C" fn f_clone<A: Al>(p: *const c_void) -> *const c_void {
+    let _ = F_CLONES.try_with(|c| c.set(c.get() + 1));
+    if !p.is_null() {
+        Arc::increment_strong_count(p as *const P<A>);
+    }
+    p
+}
+unsafe extern "C" fn f_drop<A: Al>(p: *const c_void) {
+    let _ = F_DROPS.try_with(|c| c.set(c.get() + 1));
+    if !p.is_null() {
+        Arc::decrement_strong_count(p as *const P<A>);
+    }
 }
 
 impl<A: Al> H<A> {
@@ -60,6 +84,8 @@ impl<A: Al> H<A> {
             H::Some(_) => Kind::Some,
             H::OArc(_) => Kind::OArc,
             H::OSome(_) => Kind::OSome,
+            H::FArc(_) => Kind::FArc,
+            H::FSome(_) => Kind::FSome,
         }
     }
     fn view(&self) -> &CArcView {
@@ -69,6 +95,8 @@ impl<A: Al> H<A> {
                 H::Some(h) => &*(h as *const _ as *const CArcView),
                 H::OArc(h) => &*(h as *const _ as *const CArcView),
                 H::OSome(h) => &*(h as *const _ as *const CArcView),
+                H::FArc(h) => &*(h as *const _ as *const CArcView),
+                H::FSome(h) => &*(h as *const _ as *const CArcView),
             }
         }
     }
@@ -77,8 +105,8 @@ impl<A: Al> H<A> {
         match self {
             H::Arc(h) => h.as_ref().map(|r| r as *const P<A> as usize).unwrap_or(0),
             H::Some(h) => &**h as *const P<A> as usize,
-            H::OArc(h) => h.as_ref().map(|r| r as *const c_void as usize).unwrap_or(0),
-            H::OSome(h) => h.as_ref() as *const c_void as usize,
+            H::OArc(h) | H::FArc(h) => h.as_ref().map(|r| r as *const c_void as usize).unwrap_or(0),
+            H::OSome(h) | H::FSome(h) => h.as_ref() as *const c_void as usize,
         }
     }
 }
@@ -99,6 +127,13 @@ enum Op {
     IntoOpaque(usize),
     IntoArc(usize),
     Drop(usize),
+    // --- extended alphabet (sections *_ext)
+    /// an opaque handle to a new allocation, assembled through the published layout with the other module's functions
+    NewForeign(bool),
+    /// handles[i].clone_from(&handles[j]) (same static type)
+    CloneFrom(usize, usize),
+    /// the handle goes out of scope while a panic unwinds
+    DropUnwinding(usize),
 }
 
 struct Sut<A> {
@@ -107,6 +142,8 @@ struct Sut<A> {
     /// teardown order: false = handles first, then the retained Arcs (the payload goes with a std Arc);
     /// true = retained Arcs first, so that the LAST HANDLE of every allocation has to destroy the payload
     handles_last: bool,
+    /// extended alphabet: foreign-assembled handles, clone_from, drops during unwinding
+    ext: bool,
     _a: std::marker::PhantomData<fn() -> A>,
 }
 
@@ -164,8 +201,9 @@ impl<A: Al> World<A> {
                     }
                     let cf = v.clone_fn.map(|f| f as usize).unwrap_or(0);
                     let df = v.drop_fn.map(|f| f as usize).unwrap_or(0);
-                    if cf != self.ref_clone || df != self.ref_drop {
-                        return Err(("arc:fn_ptrs".into(), at(&format!("handle {} ({:?}) carries clone_fn/drop_fn {:#x}/{:#x}, the creating instantiation has {:#x}/{:#x}", i, h.kind(), cf, df, self.ref_clone, self.ref_drop))));
+                    let (wc, wd) = if matches!(h.kind(), Kind::FArc | Kind::FSome) { (f_clone::<A> as usize, f_drop::<A> as usize) } else { (self.ref_clone, self.ref_drop) };
+                    if cf != wc || df != wd {
+                        return Err(("arc:fn_ptrs".into(), at(&format!("handle {} ({:?}) carries clone_fn/drop_fn {:#x}/{:#x}, the module that created what it refers to has {:#x}/{:#x}", i, h.kind(), cf, df, wc, wd))));
                     }
                 }
                 None => {
@@ -203,11 +241,31 @@ impl<A: Al> Sut<A> {
             }
             v.push(Op::FromOptNone);
             v.push(Op::Default);
+            if self.ext && allocs < self.max_allocs {
+                v.push(Op::NewForeign(false));
+                v.push(Op::NewForeign(true));
+            }
+        }
+        if self.ext {
+            let class = |k: &Kind| match k {
+                Kind::Arc => 0,
+                Kind::Some => 1,
+                Kind::OArc | Kind::FArc => 2,
+                Kind::OSome | Kind::FSome => 3,
+            };
+            for (i, (ki, _)) in handles.iter().enumerate() {
+                for (j, (kj, _)) in handles.iter().enumerate() {
+                    if i != j && class(ki) == class(kj) {
+                        v.push(Op::CloneFrom(i, j));
+                    }
+                }
+                v.push(Op::DropUnwinding(i));
+            }
         }
         for (i, (k, _al)) in handles.iter().enumerate() {
             if room {
                 v.push(Op::Clone(i));
-                if matches!(k, Kind::Arc | Kind::OArc) {
+                if matches!(k, Kind::Arc | Kind::OArc | Kind::FArc) {
                     v.push(Op::Take(i));
                 }
             }
@@ -273,6 +331,8 @@ impl<A: Al> Sut<A> {
                         H::Some(h) => H::Some(h.clone()),
                         H::OArc(h) => H::OArc(h.clone()),
                         H::OSome(h) => H::OSome(h.clone()),
+                        H::FArc(h) => H::FArc(h.clone()),
+                        H::FSome(h) => H::FSome(h.clone()),
                     };
                     w.handles.push((c, al));
                 }
@@ -281,6 +341,7 @@ impl<A: Al> Sut<A> {
                     let t = match &mut w.handles[i].0 {
                         H::Arc(h) => H::Arc(h.take()),
                         H::OArc(h) => H::OArc(h.take()),
+                        H::FArc(h) => H::FArc(h.take()),
                         _ => unreachable!(),
                     };
                     w.handles[i].1 = None;
@@ -293,6 +354,8 @@ impl<A: Al> Sut<A> {
                         H::OArc(h) => h.transpose().map(H::OSome),
                         H::Some(h) => Some(H::Arc(h.transpose())),
                         H::OSome(h) => Some(H::OArc(h.transpose())),
+                        H::FArc(h) => h.transpose().map(H::FSome),
+                        H::FSome(h) => Some(H::FArc(h.transpose())),
                     };
                     match (nh, al) {
                         (Some(h), Some(_)) => w.handles.insert(i, (h, al)),
@@ -336,6 +399,64 @@ impl<A: Al> Sut<A> {
                 Op::Drop(i) => {
                     let (h, _al) = w.handles.remove(i);
                     drop(h);
+                }
+                Op::NewForeign(some) => {
+                    let arc = w.new_alloc();
+                    let a = w.retained.len() - 1;
+                    let view = CArcView { instance: Arc::into_raw(arc) as *const c_void, clone_fn: Some(f_clone::<A>), drop_fn: Some(f_drop::<A>) };
+                    let h = unsafe {
+                        if some {
+                            H::FSome(std::mem::transmute::<CArcView, CArcSome<c_void>>(view))
+                        } else {
+                            H::FArc(std::mem::transmute::<CArcView, CArc<c_void>>(view))
+                        }
+                    };
+                    w.handles.push((h, Some(a)));
+                }
+                Op::CloneFrom(i, j) => {
+                    // like `*i = j.clone()`: afterwards i is a handle to what j refers to, made by j's module
+                    let (src, src_al) = w.handles.remove(j);
+                    let ii = if i > j { i - 1 } else { i };
+                    let (dst, _old) = w.handles.remove(ii);
+                    let nd = match (dst, &src) {
+                        (H::Arc(mut d), H::Arc(s)) => {
+                            d.clone_from(s);
+                            H::Arc(d)
+                        }
+                        (H::Some(mut d), H::Some(s)) => {
+                            d.clone_from(s);
+                            H::Some(d)
+                        }
+                        (H::OArc(mut d) | H::FArc(mut d), H::OArc(s)) => {
+                            d.clone_from(s);
+                            H::OArc(d)
+                        }
+                        (H::OArc(mut d) | H::FArc(mut d), H::FArc(s)) => {
+                            d.clone_from(s);
+                            H::FArc(d)
+                        }
+                        (H::OSome(mut d) | H::FSome(mut d), H::OSome(s)) => {
+                            d.clone_from(s);
+                            H::OSome(d)
+                        }
+                        (H::OSome(mut d) | H::FSome(mut d), H::FSome(s)) => {
+                            d.clone_from(s);
+                            H::FSome(d)
+                        }
+                        _ => return Err(("harness".into(), at("clone_from between different static types"))),
+                    };
+                    w.handles.insert(ii, (nd, src_al));
+                    w.handles.insert(j, (src, src_al));
+                }
+                Op::DropUnwinding(i) => {
+                    let (h, _al) = w.handles.remove(i);
+                    let r = std::panic::catch_unwind(std::panic::AssertUnwindSafe(move || {
+                        let _owner = h;
+                        panic!("unwinding with a live handle");
+                    }));
+                    if r.is_ok() {
+                        return Err(("harness".into(), at("the panic did not unwind")));
+                    }
                 }
             }
             w.check(&drops, &at)?;
@@ -442,14 +563,18 @@ impl<A: Al> HistSut for Sut<A> {
 
 fn replay<A: Al>(case: &Value, handles_last: bool) -> CaseOut {
     let hist: Vec<Op> = serde_json::from_value(case["history"].clone()).expect("history");
-    let out = Sut::<A> { max_handles: 8, max_allocs: 4, handles_last, _a: Default::default() }.run(&hist);
+    let out = Sut::<A> { max_handles: 8, max_allocs: 4, handles_last, ext: true, _a: Default::default() }.run(&hist);
     CaseOut { obs: out.obs, nontrivial: true, violation: out.violation }
 }
 
 fn sections_for<A: Al>(suffix: &'static str, handles_last: bool, scale: usize) -> Vec<Section> {
+    sections_ext::<A>(suffix, handles_last, scale, false)
+}
+
+fn sections_ext<A: Al>(suffix: &'static str, handles_last: bool, scale: usize, ext: bool) -> Vec<Section> {
     let full: &'static str = Box::leak(format!("histories_full{}", suffix).into_boxed_str());
     let bfs: &'static str = Box::leak(format!("histories_bfs{}", suffix).into_boxed_str());
-    let pre = format!("payload type with {}; teardown {}; ", A::NAME, if handles_last { "drops the retained std Arcs first, so the last HANDLE of each allocation must destroy the payload (checked after every single drop: count == handles left, payload dropped iff none left)" } else { "drops the handles first, then the retained std Arcs" });
+    let pre = format!("{}payload type with {}; teardown {}; ", if ext { "extended alphabet: additionally opaque handles assembled through the published layout with another module's clone/drop functions, clone_from between handles of one static type, and handles dropped while a panic unwinds; " } else { "" }, A::NAME, if handles_last { "drops the retained std Arcs first, so the last HANDLE of each allocation must destroy the payload (checked after every single drop: count == handles left, payload dropped iff none left)" } else { "drops the handles first, then the retained std Arcs" });
     let pre2 = pre.clone();
     vec![
         Section {
@@ -460,7 +585,7 @@ fn sections_for<A: Al>(suffix: &'static str, handles_last: bool, scale: usize) -
                     Tier::Thorough => (4, 2, 6 - scale),
                 };
                 cx.rule(full, &format!("{}all histories of length <= {} over {{from value/Arc/Option<Arc> (new or existing allocation), default, clone, take, transpose (both ways), into_opaque, into_arc, drop}} on a pool of <= {} handles (CArc, CArcSome, typed and opaque) over <= {} allocations; oracle after every step: strong_count == 1 + live handles per allocation, payload not dropped, every handle points to its allocation (API and C view), function pointers are those of the creating instantiation, empty handles have a null instance; teardown: payload dropped exactly once; allocator balanced", pre, d, mh, ma));
-                hist::full(&Sut::<A> { max_handles: mh, max_allocs: ma, handles_last, _a: Default::default() }, d, cx, full);
+                hist::full(&Sut::<A> { max_handles: mh, max_allocs: ma, handles_last, ext, _a: Default::default() }, d, cx, full);
             }),
             replay: Box::new(move |c| replay::<A>(c, handles_last)),
         },
@@ -472,7 +597,7 @@ fn sections_for<A: Al>(suffix: &'static str, handles_last: bool, scale: usize) -
                     Tier::Thorough => (6, 3, 14),
                 };
                 cx.rule(bfs, &format!("{}same alphabet, pool <= {}, BFS to depth {} with dedup on the sorted multiset of (handle kind, allocation) and the number of allocations", pre2, mh, d));
-                hist::bfs(&Sut::<A> { max_handles: mh, max_allocs: ma, handles_last, _a: Default::default() }, d, cx, bfs, 3_000_000);
+                hist::bfs(&Sut::<A> { max_handles: mh, max_allocs: ma, handles_last, ext, _a: Default::default() }, d, cx, bfs, 3_000_000);
             }),
             replay: Box::new(move |c| replay::<A>(c, handles_last)),
         },
@@ -485,6 +610,7 @@ fn main() {
     sections.extend(sections_for::<()>("_handles_last", true, 0));
     sections.extend(sections_for::<A64>("_align64", false, 1));
     sections.extend(sections_for::<A64>("_align64_handles_last", true, 1));
+    sections.extend(sections_ext::<()>("_ext_handles_last", true, 1, true));
     explore::run_main(CheckDef {
         property: "C10",
         level: "model_checking",
